@@ -532,9 +532,11 @@ fn trace_obs(st: &mut St, obs: &mut Vec<Value>) {
                 nid,
                 kind,
                 prev,
+                level,
+                hook,
             } => {
                 st.canon.on_new(&pid, &tid, &nid);
-                obs.push(json!({"k":"new","pid":pid,"tid":tid,"nid":nid,"kind":kind,"prev":prev}));
+                obs.push(json!({"k":"new","pid":pid,"tid":tid,"nid":nid,"kind":kind,"prev":prev,"level":level,"hook":hook}));
             }
             verif::Obs::Tr {
                 pid,
